@@ -1010,6 +1010,17 @@ func (x *Exec) envAt(st *State) *Env {
 			}
 		}
 	}
+	// captured variables of a closure under contract: current contents of their cells
+	for _, fv := range f.Fn.FreeVars {
+		if p, ok := f.Regs[fv].(PtrV); ok && p.Cell != nil {
+			if v, ok := st.Cells[p.Cell]; ok {
+				vars[fv.Name()] = v
+				if ev, ok := x.ParamVals[fv.Name()]; ok {
+					vars[fv.Name()+"0"] = ev
+				}
+			}
+		}
+	}
 	for k, v := range st.Ghost {
 		if _, ok := vars[k]; !ok {
 			vars[k] = v
